@@ -809,10 +809,11 @@ def _logic_cases(rng, n):
         out.append(('logic', rng.choice(LOGICALS), args))
     scal = LCELLS + LERR
     for name in INFOS:
-        for v in scal:
+        # the kind of a value is the kind it has, not what it could be coerced to: text that looks like a number is text
+        for v in scal + ['3', '-2.5', ' 1 ', '1e3', 'TRUE']:
             out.append(('info', name, [('typed', v)]))
         for _ in range(max(2, n // 40)):
-            out.append(('info', name, [(rng.choice(['range', 'array']), tuple(rng.choice(scal) for _ in range(rng.randrange(1, 6))))]))
+            out.append(('info', name, [(rng.choice(['range', 'array']), tuple(rng.choice(scal + ['3', 'TRUE']) for _ in range(rng.randrange(1, 6))))]))
     for v in scal:
         out.append(('not', 'NOT', [('typed', v)]))
         for name in ('ISODD', 'ISEVEN'):
@@ -1002,7 +1003,32 @@ def _classify(case, detail):
     return None
 
 
+# ---- a value COMPUTED inside the argument list is a directly typed argument (only what sits in a referenced range or an array is skipped) ----
+COMPUTED = [('=SUM(1=1,5)', 6.0), ('=SUM(NOT(FALSE),5)', 6.0), ('=COUNT(1=1)', 1), ('=AVERAGE(1=1,3)', 2.0), ('=MAX(1=1,0.5)', 1.0),
+            ('=SUM(1+1,5)', 7.0), ('=SUM(ABS(-2),5)', 7.0), ('=COUNT(1+1,"a")', 1), ('=MAX(ABS(-2),0.5)', 2.0), ('=SUM("2"&"",5)', 7.0)]
+
+
+def _check_computed(case):
+    import numpy as np
+    import formulas
+    text, want = case
+    try:
+        f = formulas.Parser().ast(text)[1].compile()
+        got = np.asarray(f(), object).ravel()[0]
+    except Exception as ex:
+        return '%s raised %s: %s' % (text, type(ex).__name__, str(ex)[:80])
+    return None if (not isinstance(got, bool) and got == want) else '%s = %r, Excel: %r' % (text, got, want)
+
+
+def _classify_computed(case, detail):
+    # a logical or a text produced by an operator / function inside the argument list is treated like a referenced one
+    return 'KF-C12-4' if ('1=1' in case[0] or 'NOT(' in case[0] or '&' in case[0]) else None
+
+
 BOUNDED = [
+    Stage('B2:computed-arguments-count-as-typed', 'C12', lambda tier, rng: list(COMPUTED), _check_computed,
+          '%d aggregations with an argument computed in place (a comparison, NOT(), arithmetic, a function call, a concatenation)' % len(COMPUTED),
+          classify=_classify_computed, parallel=False),
     Stage('B1:core-functions-against-excel-definitions', 'C12', _cases, _check,
           '20 unary / 9 binary mathematical functions over 23 numbers (halves, 1.15, 2.675, large, tiny) x second arguments, random decimals; '
           '12 text functions over 10 texts x positions; 14 aggregations over random mixtures of typed arguments, ranges and array literals '
